@@ -41,8 +41,12 @@ PLANS = {
                 thorough=dict(cfgs=SEM + ["host", "host-nosse"], shards=16, cases=20000, scale=1600, maxsize=100)),
     "C09": dict(level="exploration", quick=dict(cfgs=SEM, shards=16, cases=700, scale=400, maxsize=100),
                 thorough=dict(cfgs=SEM + ["mid", "host"], shards=16, cases=8000, scale=900, maxsize=100)),
+    "C10": dict(level="exploration", quick=dict(cfgs=["small-wrap", "small-nosse-wrap"], shards=16, cases=700, scale=400, maxsize=100),
+                thorough=dict(cfgs=["small-wrap", "small-nosse-wrap"], shards=16, cases=8000, scale=900, maxsize=100)),
     "C13": dict(level="exploration", quick=dict(cfgs=["small", "small-nosse", "mid"], shards=16, cases=1200, scale=500, maxsize=100),
                 thorough=dict(cfgs=["small", "small-nosse", "mid", "host"], shards=16, cases=15000, scale=1200, maxsize=100)),
+    "C14": dict(level="exploration", quick=dict(cfgs=["small-wrap", "small-nosse-wrap"], shards=16, cases=500, scale=100, maxsize=100),
+                thorough=dict(cfgs=["small-wrap", "small-nosse-wrap", "small-ts-wrap-strict"], shards=16, cases=6000, scale=100, maxsize=100)),
     "C17": dict(level="exploration", quick=dict(cfgs=SEM, shards=16, cases=1500, scale=400, maxsize=100),
                 thorough=dict(cfgs=SEM + ["host"], shards=16, cases=20000, scale=1000, maxsize=100)),
     "C19": dict(level="exploration", quick=dict(cfgs=SEM, shards=16, cases=300, scale=300, maxsize=100),
